@@ -336,3 +336,4 @@ def run(ctx):
     _c07.check_binning_copies(ctx, "C16.c", m)
     # merging bins keeps the covered measure: one map per axis, built for that axis (shared with C10)
     ctx.borrow("C10", ("merge_bins:amount-map", "merge_bins:all-axes", "HistogramBase.merge_bins:axis-resolved"), "C16.c", floor=3)
+    ctx.borrow("C04", ("FixedWidthBinning._force_bin_existence_single:cache-coherence",), "C16.c")
